@@ -465,6 +465,17 @@ func (e *SpecEnv) modTargets(x ast.Expr, text string) []modEntry {
 				g.arrReg[l.arr] = l.es
 				return []modEntry{{l.arr, l.ref, text}}
 			case "all":
+				// all(T.f): field f of every object of (struct) type T
+				if sel, ok := x.Args[0].(*ast.SelectorExpr); ok {
+					if t, isT := e.isTypeExpr(sel.X); isT && isStruct(t) {
+						l := e.fieldLocOf(mk("0", "Int", types.NewPointer(t)), sel.Sel.Name)
+						if l == nil {
+							specFail("modifies %s: no such field", text)
+						}
+						g.arrReg[l.arr] = l.es
+						return []modEntry{{l.arr, "", text}}
+					}
+				}
 				// all(x.f): field f of every object of x's type
 				ents := e.modTargets(x.Args[0], text)
 				for i := range ents {
